@@ -42,6 +42,9 @@ var gbyLeveldb = gbyTable{
 }
 
 func runC05(p *Prog, r *Report) {
+	if want("C05.22") {
+		ruleTrBufferResetSoleHolder(p, r, "C05.22")
+	}
 	if want("C05.21") {
 		ruleSnapshotReadsFrozenSeq(p, r, "C05.21")
 	}
